@@ -111,11 +111,19 @@ def handle (req : Json) : Except String Json := do
     let ls ← texts (← field req "lines")
     let manik ← bool (fieldD req "manik" (Json.bool false))
     let r := if manik then manikRead ls else libsvmRead ls
-    pure (obj [("rows", exJ (ofList svmRowJ) r)])
+    -- phase 5: `py` = the same with int()/float() of the tokens inside the model (`libsvmReadPy` / `manikReadPy`)
+    let rp := if manik then manikReadPy ls else libsvmReadPy ls
+    let rowPyJ := fun (x : List (Int × Text) × List Text) =>
+      obj [("feats", ofList (fun (kv : Int × Text) => Json.arr #[ofInt kv.1, textJ kv.2]) x.1), ("labels", linesJ x.2)]
+    let hyp := match r with | .ok rows => rows.all svmNumOk | .error _ => false
+    pure (obj [("rows", exJ (ofList svmRowJ) r), ("py", exJ (ofList rowPyJ) rp), ("numok", Json.bool hyp)])
   | "arffread" =>
     -- the whole ArffReader on the lines of a file
+    -- phase 5: `result` is the reader over CPython's numerals (`arffReadPy`); `result0` the older `arffRead` the
+    -- whole-file theorems are about; `clean` = hypothesis of `arffReadPy_conservative` (then both must agree)
     let ls ← texts (← field req "lines")
-    pure (obj [("result", exJ arffJ (arffRead ls))])
+    pure (obj [("result", exJ arffJ (arffReadPy ls)), ("result0", exJ arffJ (arffRead ls)),
+               ("clean", Json.bool (linesNumClean ls))])
   | "arffsparseline" =>
     let l ← natList (← field req "line")
     let n ← nat (← field req "n")
@@ -198,6 +206,25 @@ def handle (req : Json) : Except String Json := do
     let flags := rows.map (fun r => Json.arr #[Json.bool (sparseMissing (sparseRowLine r.1 r.2)), Json.bool (r.2.any (·.2.isMissing))])
     pure (obj [("lines", linesJ ls), ("hyp", Json.bool hyp), ("want", arffJ want), ("model", exJ arffJ (arffReadN ls)),
                ("flags", Json.arr flags.toArray)])
+  | "undecided" =>
+    -- phase 5: a comma-joined row through the fallback parser with `_fallback_delim` undecided (fresh reader, `_dense_advanced`
+    -- called on it) and through a fresh reader's `filter`; the hypotheses / right-hand sides of the two theorems
+    let vs ← texts (← field req "values")
+    let line := joinWith COMMA vs
+    let n := vs.length
+    let s0 : ALRF := ⟨true, true, none, COMMA, none⟩
+    let adv := match arffAdvanced n s0 line with | .ok r => Except.ok r.2 | .error e => .error e
+    let fd := match arffAdvanced n s0 line with | .ok r => r.1.fallback | .error _ => none
+    let first := match arffLineStepF n ALRF.init line with | .ok r => Except.ok r.2 | .error e => .error e
+    let unq := (splitOn (fallbackDelim line) line).all pieceUnquoted
+    let pred : Except Err (List Text) := match advUnquoted (splitOn (fallbackDelim line) line) with
+      | .error e => .error e
+      | .ok parsed => if parsed.length = n then .ok parsed else .error .cobaException
+    let hyp := !vs.isEmpty && vs.all innerTok && (splitOn TAB line).all pieceUnquoted
+    let rhs := !line.contains TAB || decide ((splitOn TAB line).length < n)
+    pure (obj [("line", textJ line), ("adv", exJ linesJ adv), ("first", exJ linesJ first), ("unq", Json.bool unq),
+               ("pred", exJ linesJ pred), ("hyp", Json.bool hyp), ("rhs", Json.bool rhs),
+               ("delim", ofOpt ofNat fd), ("guess", ofNat (fallbackDelim line))])
   | "numlit" =>
     -- `int(tok)` / `float(tok)` as CPython reads them (underscores, sign, white space, inf/nan) and the older ASCII approximations
     let t ← natList (← field req "tok")
